@@ -679,6 +679,21 @@ def fn_li2(u):
     return Rat(Poly.atom(name))
 
 
+def fn_li3(u):
+    """Trilogarithm Li3(u) for u <= 1 (real)."""
+    u = to_rat(u)
+    cv = u.const_value()
+    if cv is not None:
+        if cv == 0:
+            return Rat(Poly())
+        if cv == 1:
+            return sym("zeta3", positive=True)
+    name = f"li3({u.canon()})"
+    if name not in ATOMS:
+        ATOMS[name] = AtomDef(name, "li3", u)
+    return Rat(Poly.atom(name))
+
+
 def fn_sqrt(u):
     u = to_rat(u)
     cv = u.const_value()
@@ -832,6 +847,8 @@ def d_atom(a, var):
         return du / u
     if ad.kind == "li2":
         return -fn_log(Rat.const(1) - u) * du / u
+    if ad.kind == "li3":
+        return fn_li2(u) * du / u
     if ad.kind == "sqrt":
         return du / (Rat(Poly.atom(a)) * 2)
     if ad.kind == "exp":
@@ -894,7 +911,7 @@ def subs(r, mapping):
         if not (ad.arg.all_atoms() & set(mapping)):
             return Rat(Poly.atom(a))
         u = subs(ad.arg, mapping)
-        return {"log": fn_log, "li2": fn_li2, "sqrt": fn_sqrt, "exp": fn_exp}[ad.kind](u)
+        return {"log": fn_log, "li2": fn_li2, "li3": fn_li3, "sqrt": fn_sqrt, "exp": fn_exp}[ad.kind](u)
 
     def sub_poly(p):
         res = Rat(Poly())
@@ -950,6 +967,27 @@ def _li2_num(x):
     return s
 
 
+def _li3_num(x):
+    if x > 1:
+        raise Undecided("li3 numeric outside domain")
+    if x == 1:
+        return 1.2020569031595942
+    if x < -1:
+        lx = math.log(-x)
+        return _li3_num(1 / x) - math.pi**2 / 6 * lx - lx**3 / 6
+    if x > 0.5:
+        # Li3(x) = -Li3(1-x) - Li3(1-1/x) + zeta3 + ln^3(x)/6 + pi^2/6 ln(x) - ln^2(x) ln(1-x)/2
+        lx = math.log(x)
+        return (-_li3_num(1 - x) - _li3_num(1 - 1 / x) + 1.2020569031595942 + lx**3 / 6 + math.pi**2 / 6 * lx - 0.5 * lx * lx * math.log(1 - x))
+    s_, t = 0.0, 1.0
+    for k in range(1, 400):
+        t *= x
+        s_ += t / (k * k * k)
+        if abs(t) < 1e-18:
+            break
+    return s_
+
+
 _MATH_CONSTANTS = {"pi": math.pi, "zeta3": 1.2020569031595942, "zeta5": 1.0369277551433699}
 
 
@@ -983,6 +1021,8 @@ def evalf(r, env):
                     v = math.sqrt(u)
                 elif ad.kind == "exp":
                     v = math.exp(u)
+                elif ad.kind == "li3":
+                    v = _li3_num(u)
                 else:
                     v = _li2_num(u)
         cache[a] = v
